@@ -35,6 +35,10 @@ SHAPES = ["map", "filter", "filter_map", "inspect", "flat_map", "flatten", "fold
 # shapes whose implementation-shaped model reproduces a documented defect of the code (the model
 # check prints the broken rules for them instead of asserting the property)
 BADSHAPES = ["state_push", "filter_map_async"]
+# fingerprints name the combinator type, not the catalogue variant
+KIND_OF = {"rf_ordered": "resolve_futures", "rf_unordered": "resolve_futures", "rf_ordered_w": "resolve_futures",
+           "rf_unordered_w": "resolve_futures", "persist_replay": "persist", "persist_norep": "persist",
+           "persist_empty": "persist"}
 HARNESS_RULES = ("driver-", "harness-")
 RANDOM_BASE = 1000000
 CANARY_CASE = 9000001
@@ -46,8 +50,8 @@ def _set(xs):
 
 def _cfg(thorough):
     if thorough:
-        b = dict(MaxIn1=3, MaxIn2=3, MaxIn3=2, MaxPend1=2, MaxPend2=2, MaxPend3=2,
-                 RLen1=4, RLen2=3, RLen3=2, FLen1=2, FLen2=2, FLen3=1, EXTRA="FALSE")
+        b = dict(MaxIn1=3, MaxIn2=2, MaxIn3=2, MaxPend1=2, MaxPend2=2, MaxPend3=1,
+                 RLen1=3, RLen2=3, RLen3=2, FLen1=2, FLen2=1, FLen3=1, EXTRA="FALSE")
     else:
         b = dict(MaxIn1=2, MaxIn2=2, MaxIn3=1, MaxPend1=2, MaxPend2=1, MaxPend3=1,
                  RLen1=2, RLen2=2, RLen3=2, FLen1=2, FLen2=1, FLen3=1, EXTRA="FALSE")
@@ -58,7 +62,7 @@ def _cfg(thorough):
 
 def _cfg_extra():
     # spurious extra poll_ready cycles of the driver, small scripts (thorough tier only)
-    b = dict(MaxIn1=2, MaxIn2=2, MaxIn3=1, MaxPend1=1, MaxPend2=1, MaxPend3=1,
+    b = dict(MaxIn1=2, MaxIn2=1, MaxIn3=1, MaxPend1=1, MaxPend2=1, MaxPend3=1,
              RLen1=2, RLen2=2, RLen3=1, FLen1=1, FLen2=1, FLen3=1, EXTRA="TRUE")
     return ("SPECIFICATION Spec\nCONSTANTS\n  SHAPES = %s\n  BADSHAPES = %s\n  EMIT = TRUE\n" % (_set(SHAPES), _set(BADSHAPES))
             + "".join("  %s = %s\n" % kv for kv in b.items())
@@ -88,7 +92,7 @@ def _describe(reset):
 
 
 def engine(pid, spec_dir, impl, tracemod, exe_name, area, shapes, badshapes, cfgs, random_args, tag,
-           alter_canary, has_drift=False):
+           alter_canary, has_drift=False, kind_of=None):
     """The shared C12 / C14 pipeline.  Returns the PropResult."""
     res = vlib.PropResult(pid)
     bindir = vlib.cargo_build("hv_push", bins=[exe_name])
@@ -201,7 +205,7 @@ def engine(pid, spec_dir, impl, tracemod, exe_name, area, shapes, badshapes, cfg
         reset, calls = tcases[case]
         what = "replayed TLC behaviour" if case < RANDOM_BASE else "random run"
         for rule in sorted(by_case[case]):
-            res.violation("%s/%s/%s" % (area, reset["shape"], rule),
+            res.violation("%s/%s/%s" % (area, (kind_of or {}).get(reset["shape"], reset["shape"]), rule),
                           "%s: rule %s broken by the real code, %s" % (what, rule, _describe(reset)),
                           {"reset": reset, "calls": calls})
     # model / code disagreement about which rules break -> drift
@@ -240,7 +244,7 @@ def run(tier):
     cfgs = [("mc", _cfg(thorough))] + ([("mc_extra", _cfg_extra())] if thorough else [])
     rnd = [12000, 8, 8] if thorough else [1200, 6, 6]
     res = engine("C12", SD, "PushPipeImpl", "PushPipeTrace", "push_pipe", "push", SHAPES, BADSHAPES, cfgs, rnd,
-                 "pushpipe", _alter)
+                 "pushpipe", _alter, kind_of=KIND_OF)
     res.rule = ("cases = (shape, inputs, poll_ready scripts, poll_finalize scripts, spurious driver polls); "
                 "non-trivial = at least one input and at least one Pending in some script; distinct by that tuple")
     res.assumptions = ["downstream doubles are fused: Done after their script, Done forever once finalized",
